@@ -346,14 +346,16 @@ static Params make_group(unsigned F, unsigned G, size_t n, bool qsquare = false)
 	return P;
 }
 // safe prime p = 2q+1 with |p| = F and p mod 8 = r
-static Params make_qr(unsigned F, unsigned r, int step = 1) {
+// pair p = 2q+1 with |p| = F and p mod 8 = r; by default both prime, optionally exactly one of them composite
+static Params make_qr(unsigned F, unsigned r, int step = 1, bool qprime = true, bool pprime = true) {
 	Params P;
 	for (;; F += step) {
 		bool ok = false;
 		for (int tries = 0; tries < 3000 && !ok; tries++) {
-			gen_prime_bits(P.q.w(), F - 1);
+			if (qprime) gen_prime_bits(P.q.w(), F - 1);
+			else { gen_bits(P.q.w(), F - 1); mpz_setbit(P.q.w(), F - 2); mpz_setbit(P.q.w(), 0); if (is_prime(P.q)) continue; }
 			mpz_mul_2exp(P.p.w(), P.q, 1); mpz_add_ui(P.p.w(), P.p, 1);
-			ok = bits(P.p) == F && is_prime(P.p) && mpz_fdiv_ui(P.p, 8) == r;
+			ok = bits(P.p) == F && (is_prime(P.p) == pprime) && mpz_fdiv_ui(P.p, 8) == r;
 		}
 		if (ok) break;
 	}
@@ -585,7 +587,11 @@ static void run_qr(const std::vector<Cls> &cls, unsigned F0, bool with_rec) {
 	std::vector<Corr> cat = catalogue(V, nullptr, nullptr);
 	std::vector<Params> ps; std::vector<std::string> names;
 	for (const Corr &k : cat) { if (k.field != "p" && k.field != "q" && k.field != "g" && k.field != "k") continue; ps.push_back(k.P); names.push_back(k.name); }
+	// consistently generated pairs that violate exactly one clause
 	{ Params P = make_qr(F, 3); ps.push_back(P); names.push_back("p=3mod8"); }
+	{ Params P = make_qr(F, 3); ps.push_back(P); names.push_back("p=3mod8(second)"); }
+	if (F >= 12) { Params P = make_qr(F, 7, 1, false, true); ps.push_back(P); names.push_back("q-composite(p=2q+1-prime)"); }
+	if (F >= 12) { Params P = make_qr(F, 7, 1, true, false); ps.push_back(P); names.push_back("p-composite(q-prime)"); }
 	{ Params P = make_qr(F - 1, 7, -1); P.F = F; ps.push_back(P); names.push_back("p=short(valid-smaller-field)"); }
 	{ Params P = V; mpz_mul_ui(P.q.w(), V.q, 3); mpz_mul_2exp(P.p.w(), P.q, 1); mpz_add_ui(P.p.w(), P.p, 1); ps.push_back(P); names.push_back("q=3q,p=2q+1"); }
 	std::vector<std::string> vs = guarded_batch(ps.size(), [&](size_t j) { return b01(qc->check(ps[j], true)); });
